@@ -26,14 +26,16 @@ atom: NAME -> var
     | NUM
     | "(" expr ")"
     | list
-!neg: "~" atom
+    | neg
+!neg: _TILDE atom
+_TILDE: "~"
 list: "[" _sep{expr, ","} "]"
 _sep{x, s}: x (s x)*
 NAME: /[a-z]+/
 NUM.2: /[0-9]+/
 %ignore " "
 '''
-LEXEMES = ['let', 'x', '=', '7', ';', '+', '-', '(', ')', '[', ']', ',', 'yy']
+LEXEMES = ['let', 'x', '=', '7', ';', '+', '-', '(', ')', '[', ']', ',', 'yy', '~']
 
 if P and P.get('kind') == 'emb':
     from lark import Lark, Transformer, v_args, Token, Tree
@@ -74,6 +76,10 @@ if P and P.get('kind') == 'emb':
         def NUM(self, t):
             return ('NUM', int(t))
 
+        def _TILDE(self, t):
+            # a filtered (underscore) terminal that a ! rule keeps: its callback runs in both ways of transforming
+            return ('TILDE', str(t))
+
     @v_args(inline=True)
     class TInline(Transformer):
         def let(self, name, value):
@@ -109,11 +115,11 @@ if P and P.get('kind') == 'emb':
         def let(self, t):
             return (str(t.data), len(t.children), tuple(t.children))
 
-        def es(self, t):
-            return (str(t.data),) + tuple(t.children)
-
         def add(self, t):
             return (str(t.data),) + tuple(t.children)
+
+        # one function attached under a second name (the usual idiom): tree.data is the rule's / alias' name, not the function's
+        es = add
 
         def var(self, t):
             return (str(t.data), str(t.children[0]))
